@@ -16,6 +16,7 @@ import IoosQc.Props.C18
 import IoosQc.Model.FxParse
 import IoosQc.Model.Creator
 import IoosQc.Model.CallRun
+import IoosQc.Model.System
 
 open Lean IoosQc IoosQc.Wire
 
@@ -444,6 +445,87 @@ def handleCreator (j : Json) : D Json := do
         | none => Json.null),
       ("spans", Json.arr spans.toArray) ])
 
+
+/-! ### the whole pipeline -/
+
+/-- The parameters of a call (the arrays are dropped). -/
+def specOfCall : TestCall → TestSpec
+  | .gross f s _ => .gross f s
+  | .valid lo hi si ei _ => .valid lo hi si ei
+  | .location _ _ b r h => .location b r h
+  | .climatology ms _ _ _ => .climatology ms
+  | .spike m s f _ => .spike m s f
+  | .roc _ _ thr => .roc thr
+  | .flatLine _ _ s f tol => .flatLine s f tol
+  | .attenuated ct _ _ s f p mo mp => .attenuated ct s f p mo mp
+  | .density _ _ s f => .density s f
+  | .pressure _ => .pressure
+  | .speed _ _ _ s f h => .speed s f h
+
+/-- A configured test on the wire: the same fields as a call (same decoder, same defaults for
+    omitted keywords) without the arrays; `{"fn": "raiser"}` is a callee that raises. -/
+def asTestSpec (j : Json) : D TestSpec := do
+  let fn ← field j "fn" >>= asStr
+  if fn = "raiser" then return .raiser
+  let empty := Json.arr #[]
+  let j := ["inp", "t", "z", "lon", "lat"].foldl (fun (acc : Json) k => acc.setObjVal! k empty) j
+  let j := if (optField j "hops").isSome then j else j.setObjVal! "hops" empty
+  specOfCall <$> asCall j
+
+def asTable (j : Json) : D Table := do
+  let t ← field j "t" >>= asList asInt
+  let cols ← field j "cols" >>= asList (fun c => do pure (← field c "name" >>= asStr, ← field c "vals" >>= asList asV))
+  pure { t := t, z := ← getOpt (asList asV) j "z", lat := ← getOpt (asList asV) j "lat",
+         lon := ← getOpt (asList asV) j "lon", cols := cols }
+
+def asSysCtx (j : Json) : D SysCtx := do
+  let w ← field j "window" >>= asWindow
+  let es ← field j "entries" >>= asList (fun e => do
+    pure (⟨← field e "stream" >>= asStr, ← field e "key" >>= asStr, ← field e "spec" >>= asTestSpec⟩ : SysEntry))
+  pure ⟨w, es⟩
+
+/-- Every call the run makes lies in the domain the theorems (and the float argument) cover. -/
+def sysInDom (tab : Table) (cs : List SysCtx) : Bool :=
+  (groupCtxs cs).all fun c =>
+    let mask := specMask c.window tab.t
+    c.entries.all fun e =>
+      match tab.cols.lookup e.stream with
+      | none => true
+      | some col =>
+        (match e.spec.bind (tab.rows col mask) with
+         | none => true
+         | some call => call.inDom)
+
+def optIntsToJson (l : List (Option Int)) : Json :=
+  Json.arr (l.map fun v => match v with | some x => toJson x | none => Json.null).toArray
+
+/-- kind = "system": a table, a typed configuration and the collected results of the real run
+    (Config → stream front end → collect_results, list and dict form).  The model computes the
+    complete expected outcome (`systemRun`). -/
+def handleSystem (j : Json) : D Json := do
+  let tab ← field j "table" >>= asTable
+  let cs ← field j "contexts" >>= asList asSysCtx
+  let obs ← field j "obs" >>= asList (fun o => do
+    pure ((← field o "stream" >>= asStr, ← field o "key" >>= asStr),
+          (← field o "list" >>= asList (asOpt asInt), ← field o "dict" >>= asList asInt)))
+  let n := tab.t.length
+  let ys := runStream periodOf specMask tab cs
+  let keys := sysKeys ys
+  let model := keys.map fun k =>
+    (k, (collectColumn n (sysPieces ys k.1 k.2), collectDict n (sysPieces ys k.1 k.2)))
+  let sameKeys := obs.length == model.length && model.all (fun m => (obs.lookup m.1).isSome)
+  let bad := model.filter fun m => obs.lookup m.1 != some m.2
+  pure (Json.mkObj
+    [ ("in_dom", toJson (sysInDom tab cs)),
+      ("agree", toJson (sameKeys && bad.isEmpty)),
+      ("n_yields", toJson ys.length),
+      ("n_partial", toJson (ys.filter fun y => y.mask.any (!·)).length),
+      ("n_norun", toJson (ys.filter fun y => y.flags.isNone).length),
+      ("model", Json.arr (model.map fun m => Json.mkObj
+          [("stream", Json.str m.1.1), ("key", Json.str m.1.2), ("list", optIntsToJson m.2.1),
+           ("dict", Json.arr (m.2.2.map toJson).toArray)]).toArray),
+      ("differs", Json.arr (bad.map fun m => Json.str (m.1.1 ++ ":" ++ m.1.2)).toArray) ])
+
 def dispatch (kind : String) (j : Json) : D Json :=
   match kind with
   | "test" => handleTest j
@@ -463,6 +545,7 @@ def dispatch (kind : String) (j : Json) : D Json :=
   | "callrun" => handleCallRun j
   | "c07" => handleC07 j
   | "c18" => handleC18 j
+  | "system" => handleSystem j
   | k => throw s!"unknown kind {k}"
 
 end IoosQc.Handlers
